@@ -198,6 +198,118 @@ def drain_oracle(maxf, ops):
     return asyncio.run(main())
 
 
+# ----------------------------------------------------------------------------- queue with a send callback that raises
+def gen_fail_history(rng, max_len):
+    maxf, ops = gen_queue_history(rng, max_len)
+    ids = [o[1] for o in ops if o[0] == 'E']
+    poison = sorted({rng.choice(ids) for _ in range(rng.choice([1, 1, 2, 3]))}) if ids else []
+    return maxf, ops, poison
+
+
+def run_queue_impl_f(maxf, ops, poison):
+    """The real DataPacketQueue with a send callback that raises for the packets in `poison` (a transport write error);
+    returns (per-op [handed over, raised], final observables)."""
+    from bumble.host import DataPacketQueue
+
+    sent = []
+
+    def send(p):
+        if p in poison:
+            raise OSError('transport write failed')
+        sent.append(p)
+    q = DataPacketQueue(27, maxf, send)
+    handle_of = {}
+    per_op = []
+    for o in ops:
+        before = len(sent)
+        raised = False
+        try:
+            if o[0] == 'E':
+                handle_of[o[1]] = o[2]
+                q.enqueue(o[1], o[2])
+            elif o[0] == 'F':
+                q.flush(o[1])
+            else:
+                q.on_packets_completed(o[1], o[2])
+        except OSError:
+            raised = True
+        per_op.append([[[p, handle_of[p]] for p in sent[before:]], raised])
+    conns = sorted([h, st.in_flight, st.drained.is_set()] for h, st in q._connection_state.items())
+    waiting = [[p, h] for (p, h) in reversed(q._packets)]
+    return per_op, [q._in_flight, conns, waiting, q.pending]
+
+
+def fail_oracle(maxf, ops, poison, per_op):
+    """Property over implementation observables only: the packets whose hand-over RETURNED are the ones in flight
+    (independent ledger); they leave in FIFO order; a packet whose hand-over raised is lost to the transport error and
+    costs no buffer; an operation that ran the send loop to its end (did not raise) never leaves a packet waiting while a
+    buffer is free.  (After a hand-over raised the loop is left early; the next enqueue / flush / completion report for a
+    known handle pumps the queue again - until then packets can wait: not judged, transport errors are outside the
+    property's quantifier.)"""
+    wait, ledger = [], {}
+    stalled = False     # an operation raised and no operation has pumped the queue since
+    for i, (o, (out, raised)) in enumerate(zip(ops, per_op)):
+        pumps = True
+        if o[0] == 'E':
+            wait.append([o[1], o[2]])
+        elif o[0] == 'F':
+            wait = [x for x in wait if x[1] != o[1]]
+            ledger.pop(o[1], None)
+        elif o[2] in ledger:
+            ledger[o[2]] = max(0, ledger[o[2]] - o[1])
+        else:
+            pumps = False       # a report for a handle with nothing handed over is ignored: it is not an event for the queue
+        if raised:
+            stalled = True
+        elif pumps:
+            stalled = False
+        if out != wait[:len(out)]:
+            return f'op {i} {o}: handed over {out}, expected a prefix of {wait}'
+        for p, h in out:
+            ledger[h] = ledger.get(h, 0) + 1
+        wait = wait[len(out):]
+        if raised:
+            if not wait or wait[0][0] not in poison:
+                return f'op {i} {o}: raised although no failing hand-over was due'
+            wait = wait[1:]
+        infl = sum(ledger.values())
+        if infl > maxf:
+            return f'op {i} {o}: {infl} packets in flight > max {maxf}'
+        if wait and infl < maxf and not stalled:
+            return (f'op {i} {o}: {len(wait)} packets waiting with {maxf - infl} free buffers (the controller holds {infl}; '
+                    f'hand-overs that raised: {[p for p in poison]})')
+    return None
+
+
+def check_fail_cases(ctx, cases):
+    exprs = [f"let '(s, outs) := q_run_f (in_list {coq_list(poison, coq_z)}) (q_init {m}) {queue_ops_coq(ops)} in (outs, q_obs s)"
+             for m, ops, poison in cases]
+    model = ctx.coq_eval(['Model.DataQueue', 'Model.DataQueueFail'], exprs)
+    for k, ((maxf, ops, poison), mres) in enumerate(zip(cases, model)):
+        per_op, obs = run_queue_impl_f(maxf, ops, poison)
+        nraised = sum(1 for _, r in per_op if r)
+        ctx.case(('qf', maxf, ops, poison), nraised > 0, {'kind': 'queue-fail', 'max_in_flight': maxf, 'ops': ops, 'poison': poison} if k == 7 else None)
+        ctx.count('queue_fail.histories')
+        ctx.count('queue_fail.raised_ops', nraised)
+        mouts, (minfl, mconns, mwait, mpending) = mres
+        m = [[[[list(x) for x in out], bool(r)] for (out, r) in mouts],
+             [minfl, sorted([list(c) for c in mconns]), [list(x) for x in mwait], mpending]]
+        if m != [per_op, obs]:
+            ctx.disagree('DataPacketQueue with a raising send callback', {'max_in_flight': maxf, 'ops': ops, 'poison': poison}, m, [per_op, obs])
+        bad = fail_oracle(maxf, ops, poison, per_op)
+        if bad:
+            ctx.violation('queue-fail:' + bad.split(':', 1)[1].strip().split(' ')[0] + ':' + _shape(ops),
+                          f'DataPacketQueue max_in_flight={maxf}, hand-over of {poison} raises: {bad}',
+                          {'kind': 'queue-fail', 'max_in_flight': maxf, 'ops': ops, 'poison': poison})
+
+
+CORPUS_FAIL = [
+    # seeded C04-f: the credit taken before a hand-over that raises is never given back
+    (1, [['E', 100, 1], ['E', 101, 1], ['E', 102, 1], ['C', 1, 1], ['C', 1, 1]], [100]),
+    (2, [['E', 100, 1], ['E', 101, 2], ['E', 102, 1], ['E', 103, 2], ['C', 1, 1], ['C', 1, 2], ['E', 104, 1]], [101]),
+]
+
+
 # ----------------------------------------------------------------------------- host level
 def gen_host_scenario(rng):
     """A real Host reset against a real virtual Controller with generated buffer geometry (including a dual-mode
@@ -813,6 +925,8 @@ def run(ctx):
             if bad:
                 ctx.violation('drain:' + _shape(ops), f'DataPacketQueue max_in_flight={maxf}: {bad}',
                               {'kind': 'drain', 'max_in_flight': maxf, 'ops': ops})
+    # ---- queue whose send callback raises for some packets
+    check_fail_cases(ctx, list(CORPUS_FAIL) + [gen_fail_history(rng, rng.choice([6, 12, 24])) for _ in range(ctx.n(400, 6000))])
     # ---- host level: queues as Host.reset() wires them to what the controller advertises
     for k in range(ctx.n(60, 1500)):
         sc = gen_host_scenario(rng)
@@ -888,6 +1002,14 @@ def search(ctx):
                 return
     search_pipe(ctx)
     if not ctx.violations:
+        for maxf, ops, poison in list(CORPUS_FAIL) + [gen_fail_history(ctx.rng, 16) for _ in range(3000)]:
+            per_op, _ = run_queue_impl_f(maxf, ops, poison)
+            bad = fail_oracle(maxf, ops, poison, per_op)
+            if bad:
+                ctx.violation('queue-fail:search:' + _shape(ops), f'DataPacketQueue max_in_flight={maxf}, hand-over of {poison} raises: {bad}',
+                              {'kind': 'queue-fail', 'max_in_flight': maxf, 'ops': ops, 'poison': poison})
+                return
+    if not ctx.violations:
         for sc in list(CORPUS_ROUTING) + [gen_routing_scenario(ctx.rng, 60) for _ in range(1500)]:
             r = run_routing_scenario(sc)
             if r[3]:
@@ -930,6 +1052,10 @@ def replay(ctx, obj):
         print('oracle:', queue_oracle(r['max_in_flight'], r['ops'], per_op) or 'holds')
     elif r['kind'] == 'host':
         print('oracle:', run_host_scenario(r) or 'holds')
+    elif r['kind'] == 'queue-fail':
+        per_op, obs = run_queue_impl_f(r['max_in_flight'], r['ops'], r['poison'])
+        print('per op [handed over, raised]:', per_op)
+        print('oracle:', fail_oracle(r['max_in_flight'], r['ops'], r['poison'], per_op) or 'holds')
     elif r['kind'] == 'routing':
         mops, log, obs, verdict = run_routing_scenario(r)
         print('handed to the controller [id, handle]:', log)
